@@ -7,7 +7,8 @@
 //!   `LAY` (rows of every zone file of every segment directory, read back through the real
 //!   `ZoneCursorLoader`). The model answers `ilv:<memtable flow>|<segment flow>`; the
 //!   implementation line carries `seq:<keys in response order>`.
-//! * `heap` (exact): the real `ZoneMerger::next_zone` on generated cursor sets.
+//! * `heap` (exact): the real `ZoneMerger::next_zone` on generated cursor sets; oracle: rows of
+//!   one context leave in input order (holds since fix 32904ff).
 //!
 //! Oracle: replay sequence == append order of that context (and type); departures are classified
 //! from the on-disk layout dump (see `classify`).
@@ -246,10 +247,12 @@ fn classify(seq: &[u64], app: &[u64], disk: &[(u64, Vec<u64>)], mem_poss: &BTree
     if s_do != d_do {
         return "-";
     }
-    for (label, ks) in disk {
+    for (_, ks) in disk {
         if !ascending(ks) {
-            // a flushed (level-0) segment out of order would be a new defect
-            return if *label >= 10_000 { "heap-tie-order" } else { "-" };
+            // a directory whose rows of one context are out of append order: a flushed segment
+            // never was, and compaction outputs are not any more (finding C04-heap-tie-order,
+            // fixed by 32904ff: the merger breaks ties by cursor index) — a recurrence is a violation
+            return "-";
         }
     }
     if !ascending(&dorder) {
@@ -359,7 +362,8 @@ fn witnesses() -> Vec<Case> {
         h(1, 2, 2, 1, "S 1 0 0 | S 2 0 0 | S 3 0 0 | P 0 | P 0"),
         // compacted-level-listed-after-newer-l0
         h(1, 1, 2, 1, "S 1 0 0 | RUN | S 2 0 0 | RUN | C | LAY | P 0 | S 3 0 0 | RUN | LAY | P 0 | P 0"),
-        // heap-tie-order: two segments of two zones each, one context
+        // regression histories of the fixed finding C04-heap-tie-order (32904ff): two segments of two
+        // zones each, one context — compaction output and replay must be in append order
         h(1, 2, 2, 1, "S 1 0 0 | S 2 0 0 | RUN | S 3 0 0 | S 4 0 0 | RUN | LAY | P 0 | C | LAY | P 0 | P 0"),
         h(2, 2, 2, 1, "S 1 0 0 | S 2 1 0 | S 3 0 0 | S 4 0 0 | RUN | S 5 0 0 | S 6 1 0 | S 7 0 0 | S 8 0 0 | RUN | LAY | C | LAY | P 0 | P 1"),
         // context key order is the byte order of the ids: c10 < c2
@@ -665,10 +669,9 @@ fn heap_stream(a: &Args) {
         if out.len() != total {
             st.oracle_fail(i, "-", &format!("rows lost: {op} -> {imp}"));
         } else if let Some(c) = bad_ctx {
-            // a tie exists only if the context is the head of two cursors at some moment
-            let in_several = cursors_spec.iter().filter(|cur| cur.iter().any(|(cc, _)| *cc == c)).count() >= 2;
-            st.tally("departure:heap-tie-order");
-            st.oracle_fail(i, if in_several { "heap-tie-order" } else { "-" }, &format!("{op} -> {imp}"));
+            // finding C04-heap-tie-order is fixed (32904ff): any instability is a violation
+            st.tally("unstable_merge");
+            st.oracle_fail(i, "-", &format!("context c{c} out of input order: {op} -> {imp}"));
         } else {
             st.oracle_ok();
         }
